@@ -180,6 +180,10 @@ def lshift_simplifier(val, shift):
     return None
 
 
+def _is_single_bit(v):
+    return v != 0 and v & (v - 1) == 0
+
+
 def eq_simplifier(a, b):
     if a is b:
         return claripy.true()
@@ -211,12 +215,13 @@ def eq_simplifier(a, b):
         if a.args[0].op == "BVV" and a.args[0].args[0] == 1:  # 1 ^ expr == 0
             return a.args[1] == 1
 
-        # (expr & a) ^ a == 0  ->  expr & a != 0
+        # (expr & a) ^ a == 0  ->  expr & a != 0   (only if a is a single bit)
         if (
             a.args[1].op == "BVV"
             and a.args[0].op == "__and__"
             and a.args[0].args[1].op == "BVV"
             and a.args[0].args[1].args[0] == a.args[1].args[0]
+            and _is_single_bit(a.args[1].args[0])
         ):
             return a.args[0] != 0
         if (
@@ -224,6 +229,7 @@ def eq_simplifier(a, b):
             and a.args[0].op == "__and__"
             and a.args[0].args[0].op == "BVV"
             and a.args[0].args[0].args[0] == a.args[1].args[0]
+            and _is_single_bit(a.args[1].args[0])
         ):
             return a.args[0].args[1] & a.args[0].args[0] != 0
 
@@ -309,12 +315,13 @@ def ne_simplifier(a, b):
         if a.args[0].op == "BVV" and a.args[0].args[0] == 1:
             return a.args[1] != 1
 
-        # (expr & a) ^ a != 0  ->  expr & a == 0
+        # (expr & a) ^ a != 0  ->  expr & a == 0   (only if a is a single bit)
         if (
             a.args[1].op == "BVV"
             and a.args[0].op == "__and__"
             and a.args[0].args[1].op == "BVV"
             and a.args[0].args[1].args[0] == a.args[1].args[0]
+            and _is_single_bit(a.args[1].args[0])
         ):
             return a.args[0] == 0
         if (
@@ -322,6 +329,7 @@ def ne_simplifier(a, b):
             and a.args[0].op == "__and__"
             and a.args[0].args[0].op == "BVV"
             and a.args[0].args[0].args[0] == a.args[1].args[0]
+            and _is_single_bit(a.args[1].args[0])
         ):
             return a.args[0].args[1] & a.args[0].args[0] == 0
 
